@@ -256,15 +256,18 @@ def apply_meta_op(op, md, model):
     raise ValueError(kind)
 
 
-def check_meta(md, model, metapath, who):
+def check_meta(md, model, metapath, who, content_only=False):
     """Every read accessor of MetaData object `md` equals the model; file
-    exists iff model non-empty.  Returns None or (oracle, signature, detail)."""
+    exists iff model non-empty.  Returns None or (oracle, signature, detail).
+    content_only: just dict(md) == model (what "identical metadata" needs; the accessor and file clauses are C13's)."""
     try:
         d = dict(md)
     except Exception as e:
         return (f'meta.{who}', f'dict_raises:{type(e).__name__}', str(e)[:200])
     if not json_equal(d, model):
         return (f'meta.{who}', 'dict_mismatch', f'{d!r} != {model!r}'[:300])
+    if content_only:
+        return None
     try:
         if len(md) != len(model):
             return (f'meta.{who}', 'len', f'{len(md)} != {len(model)}')
